@@ -122,8 +122,26 @@ fn report() {
         .collect();
     // environ order as the kernel handed it over
     let env_raw: Vec<String> = {
-        let raw = fs::read("/proc/self/environ").unwrap_or_default();
-        raw.split(|b| *b == 0).filter(|s| !s.is_empty()).map(|s| format!("\"{}\"", hex(s))).collect()
+        match fs::read("/proc/self/environ") {
+            Ok(raw) => raw.split(|b| *b == 0).filter(|s| !s.is_empty()).map(|s| format!("\"{}\"", hex(s))).collect(),
+            // (not readable when the ids of the process changed at exec: it is not dumpable then) -- the C runtime's
+            // `environ` still is the array the kernel handed over, nothing in this program edits it
+            Err(_) => unsafe {
+                extern "C" {
+                    static environ: *const *const libc::c_char;
+                }
+                let mut out = vec![];
+                let mut p = environ;
+                while !p.is_null() && !(*p).is_null() {
+                    let e = std::ffi::CStr::from_ptr(*p).to_bytes();
+                    if !e.is_empty() {
+                        out.push(format!("\"{}\"", hex(e)));
+                    }
+                    p = p.add(1);
+                }
+                out
+            },
+        }
     };
     let cwd = std::env::current_dir().map(|p| hex(p.as_os_str().as_bytes())).unwrap_or_default();
     let exe = fs::read_link("/proc/self/exe").map(|p| hex(p.as_os_str().as_bytes())).unwrap_or_default();
